@@ -12,9 +12,11 @@ from harness.C16 import lattice_polygons
 EVIDENCE = {
     "functions": ["shapes.SegmentTensor.intersect", "shapes.PolygonTensor.intersect (2-D via edges, 3-D via supporting plane)", "shapes.Polyhedron.intersect", "shapes.SegmentTensor.contains",
                   "shapes.PolygonTensor.contains", "utils.distinct", "point.meet(_check_dependence=False)", "base.TensorCollection.__getitem__ (boolean masks)"],
-    "bounds": "segment x line, segment x segment (2-D) and segment x plane (3-D): all coordinates free reals (finite end points, positive weights); polygon x line / segment in 2-D: "
-              "polygon from the enumerated lattice family of C16 (3-5 vertices), line / segment free reals; polygon in 3-D and cube x line: concrete polytope, free real line through two points",
-    "outside": "two symbolic polygons; polyhedra other than the cube; collections of polytopes; rounding; overlapping collinear operands are only required to yield no spurious points",
+    "bounds": "segment x line (2-D): all coordinates free reals (finite end points, positive weights; thorough) and one operand free x the other from a lattice family (quick); "
+              "segment x segment (2-D): one segment free reals x one lattice segment; segment x plane (3-D): lattice segment x free plane; polygon x line in 2-D: polygon from the "
+              "enumerated lattice family of C16 (3-5 vertices), line free reals; polygon x segment in 2-D: lattice polygon, segment with one lattice and one free real end point; "
+              "polygon in 3-D and cube x line: concrete polytope, free real line through two points",
+    "outside": "two fully symbolic segments, free segment x free plane, polygon x fully free segment (built, tier 'attempt', undecided); two symbolic polygons; polyhedra other than the cube; collections of polytopes; rounding; overlapping collinear operands are only required to yield no spurious points",
     "assumptions": ["ProjectiveTensor.__eq__/is_multiple: lemma proved in C20"],
 }
 
@@ -156,14 +158,18 @@ def _segment_plane(ctx, concrete):
         ctx.require(f"segment-plane:returned[{k}]-on-segment", _on_closed_segment(ctx, ae, be, r))
 
 
-def mk_polygon_line(poly, with_segment=False):
+def mk_polygon_line(poly, with_segment=False, anchor=None):
     def case(ctx):
         from geometer import Polygon, Point, Line, Segment
         P = Polygon(*[Point(float(x), float(y)) for x, y in poly])
         n = len(poly)
         verts = [[float(x), float(y), 1.0] for x, y in poly]
         if with_segment:
-            c, d = _finite_point(ctx, "c", 2), _finite_point(ctx, "d", 2)
+            if anchor is not None:
+                c = ctx.const([float(x) for x in anchor], float)
+            else:
+                c = _finite_point(ctx, "c", 2)
+            d = _finite_point(ctx, "d", 2)
             ce, de = E(c), E(d)
             ctx.assume(ctx.neg(R.rank_deficient(ctx, [ce, de])))
             le = R.cross3(ce, de)
@@ -275,6 +281,10 @@ def cases(tier, seed):
         add(f"polygon_line_{i:02d}", mk_polygon_line(poly), tiers=Q, max_paths=2000)
     for i, poly in enumerate(polys[:2] if tier == "quick" else polys[:20]):
         add(f"polygon_segment_{i:02d}", mk_polygon_line(poly, with_segment=True), tiers=T, max_paths=3000)
+    anchors = [(0, 0, 1), (3, 1, 1), (-1, 2, 2)]
+    for i, poly in enumerate(polys[:8]):
+        for j, an in enumerate(anchors):
+            add(f"polygon_halfsegment_{i:02d}_a{j}", mk_polygon_line(poly, with_segment=True, anchor=an), tiers=Q if i == 0 else T, max_paths=3000)
     embeds = [((0, 0, 1), (1, 0, 0), (0, 1, 0), (0, 0, 1)), ((1, 2, 3), (1, 0, 1), (0, 1, 1), (1, 1, -1)), ((2, 0, 0), (0, 1, 0), (0, 0, 1), (1, 0, 0))]
     for j, emb in enumerate(embeds):
         for i, poly in enumerate(polys[:2]):
